@@ -234,7 +234,8 @@ class ResourceMap:
         # Last key is queried at last, as the value has to be
         # discriminated between handles and maps.
         for subkey in keys[:-1]:
-            target_map.handles.pop(subkey, None)    # Overwrite duplicates
+            for layer in target_map.handles.maps:   # Overwrite duplicates
+                layer.pop(subkey, None)             # (in every layer)
             target_map = target_map.maps.setdefault(subkey, ResourceMap())
             # Intermediate maps (possibly just created) are resources
             # of the map they are reached from
@@ -249,11 +250,13 @@ class ResourceMap:
         # More extensive checks are done through assertions in debug
         # mode.
         dest_map = target_map.handles
-        other_map = target_map.maps
+        other_maps = (target_map.maps, )
         if isinstance(value, ResourceMap):
-            dest_map, other_map = other_map, dest_map
+            # A handle of the same name may sit in any layer
+            dest_map, other_maps = target_map.maps, target_map.handles.maps
 
-        other_map.pop(last_key, None)         # Delete duplicates
+        for other_map in other_maps:
+            other_map.pop(last_key, None)     # Delete duplicates
         dest_map[last_key] = value
 
         # Set added value's key in its immediate parent (last_key)
